@@ -53,6 +53,8 @@ type Half struct {
 	IO   bool
 
 	gate     chan struct{}
+	hold     chan struct{}
+	holdOnce sync.Once
 	parked   chan string
 	finished chan string
 	returned chan struct{}
@@ -66,6 +68,9 @@ type Half struct {
 	Accepted bool
 	Done     bool
 }
+
+// ReleaseHold lets an attempt held behind its admission go on (HoldUnlocked).
+func (h *Half) ReleaseHold() { h.holdOnce.Do(func() { close(h.hold) }) }
 
 // Writer returns the writer handed to the broker, of the configured kind.
 func (h *Half) Writer() io.Writer {
@@ -87,6 +92,10 @@ type World struct {
 	Och    chan opshell.CLine
 	Gated  bool
 	Record bool
+	// HoldUnlocked keeps every admitted attempt right behind its first critical section (before
+	// its proxy starts) until ReleaseHold: what the broker does next must not depend on how far an
+	// admitted stream has got.
+	HoldUnlocked bool
 	// SameHost makes every attempt come from one address, as streams dialled from one machine do.
 	SameHost bool
 
@@ -145,6 +154,9 @@ func installHook() {
 				<-h.gate
 			case "done", "unlocked":
 				h.finished <- point
+				if point == "unlocked" && w.HoldUnlocked {
+					<-h.hold // kept right behind its admission until the walk lets it go
+				}
 			}
 		}
 	})
@@ -183,7 +195,7 @@ func (w *World) NextSeq() int64 { return w.seq.Add(1) }
 
 func (w *World) newHalf(id int, dir, key string, req int, addr string, isIO bool) *Half {
 	h := &Half{ID: id, Dir: dir, Key: key, Req: req, Addr: addr, IO: isIO,
-		gate: make(chan struct{}, 1), parked: make(chan string, 1), finished: make(chan string, 2),
+		gate: make(chan struct{}, 1), parked: make(chan string, 1), finished: make(chan string, 2), hold: make(chan struct{}),
 		returned: make(chan struct{})}
 	h.W = &RecWriter{w: w, att: id}
 	if w.pendingGated {
@@ -401,6 +413,7 @@ func (w *World) Cleanup() error {
 	}
 	w.mu.Unlock()
 	for _, h := range hs {
+		h.ReleaseHold()
 		h.Cancel()
 		h.R.Close()
 	}
